@@ -175,7 +175,11 @@ Definition field_opts_override (o : mopts) (name : string) (idx : Z) : res mopts
     if ok then Ok {| m_h := h; m_ft := child' |}
     else match child' with
          | Some c => if isparent then Ok o else Ok {| m_h := m_h o; m_ft := Some c |}
-         | None => Ok o
+         | None =>
+           (* a named field the tree does not mention drops the tree; list levels (the "*"
+              probe, unmentioned indices) keep it *)
+           if (idx <? 0) && negb (String.eqb name "*")
+           then Ok {| m_h := m_h o; m_ft := None |} else Ok o
          end
   end.
 
